@@ -156,7 +156,7 @@ class Node:
 
     def index(self, session):
         sibs = [k for k in self.parent.kids if k.kind == self.kind]
-        if self.kind == "Zone_t" and not session:
+        if self.kind in ("Zone_t", "ParticleZone_t") and not session:
             sibs = sorted(sibs, key=lambda k: k.name)          # cgi_read_base: qsort by strcmp
         return 1 + sibs.index(self)
 
@@ -200,7 +200,23 @@ DEFAULTS = {
     "BaseIterativeData_t": [D_DC], "ZoneIterativeData_t": [D_DC], "Gravity_t.Gravity": [D_DC],
     "Axisymmetry_t.Axisymmetry": [D_DC], "RotatingCoordinates_t.RotatingCoordinates": [D_DC],
     "FlowEquationSet_t.FlowEquationSet": [D_DC],
+    "ParticleZone_t": [D_DC], "ParticleCoordinates_t": [D_DC], "ParticleSolution_t": [D_DC], "ParticleIterativeData_t": [D_DC],
+    "ParticleEquationSet_t.ParticleEquationSet": [D_DC], "ZoneSubRegion_t": [D_DC, D_LOC, D_RIND], "Periodic_t.Periodic": [D_DC],
+    "FamilyBCDataSet_t": [D_DC],
 }
+MODEL_LABELS = ["GasModel_t", "ViscosityModel_t", "ThermalConductivityModel_t", "TurbulenceClosure_t", "TurbulenceModel_t",
+                "ThermalRelaxationModel_t", "ChemicalKineticsModel_t", "EMElectricFieldModel_t", "EMMagneticFieldModel_t",
+                "EMConductivityModel_t"]
+PMODEL_LABELS = ["ParticleCollisionModel_t", "ParticleBreakupModel_t", "ParticleForceModel_t", "ParticleWallInteractionModel_t",
+                 "ParticlePhaseChangeModel_t"]
+for _l in MODEL_LABELS + PMODEL_LABELS:
+    DEFAULTS["%s.%s" % (_l, _l[:-2])] = [D_DC]
+# the model types cg_model_write / cg_particle_model_write accept per label (indices into ModelTypeName /
+# ParticleModelTypeName; Null and UserDefined are always accepted)
+MODEL_TYPES = {0: [2, 3, 19, 20, 21, 22], 1: [4, 5, 6], 2: [5, 6, 7], 3: [8, 9, 10], 4: [11, 12, 13, 14, 15, 16, 17, 18],
+               5: [23, 24, 25], 6: [23, 26, 27, 28], 7: [23, 32, 33, 4], 8: [23, 33, 4], 9: [23, 4, 34, 35]}
+PMODEL_TYPES = {0: list(range(2, 14)), 1: list(range(14, 25)), 2: list(range(25, 41)), 3: list(range(2, 11)) + [42, 41, 13],
+                4: [43, 47, 48, 49]}
 
 
 def expected_lines(root):
@@ -473,12 +489,12 @@ def e_sol(g, par, p):
 
 
 def e_field(g, par, p):
-    dims = datasize(par.ctx, par.loc, rind_of(par))
+    dims = [par.patch] if getattr(par, "patch", None) else datasize(par.ctx, par.loc, rind_of(par))
     if min(dims) < 1:
         return None
     dt = p.kw["dt"]
     data = rand_elems(g.rng, dt, prod(dims))
-    rind = rind_of(par)
+    rind = rind_of(par) if not getattr(par, "patch", None) else [0, 0]
     ci = g.call("field", par, p.kw["name"], arrs=[(dt, dims, data)], plan=p,
                 slab=slab_spec(g.rng, dims, [1 - rind[2 * j] for j in range(len(dims))]))
     n = Node("DataArray_t", p.kw["name"], p_arr(dt, dims, data), par)
@@ -986,10 +1002,267 @@ def e_bc_normal_array(g, par, p):
 
 
 def e_multifam(g, par, p):
-    fam = b"SomeFamily"
+    fam = p.kw.get("fam") or b"SomeFamily"
     ci = g.call("multifam", par, p.kw["name"], strs=[fam], plan=p)
     Node("AdditionalFamilyName_t", p.kw["name"], "str:" + hx(fam), par)
     g.expect_index(ci, None)
+
+
+# ---- tranche 3 ---------------------------------------------------------------------------------------------------------
+def e_particle(g, par, p):
+    n = p.kw["n"]
+    ci = g.call("particle", par, p.kw["name"], [n], plan=p)
+    z = Node("ParticleZone_t", p.kw["name"], p_ints([1], [n]), par)
+    z.ctx.update(idim=1, zsize=[n, n, 0], zt=3, zone=z, np=n)
+    g.expect_index(ci, z)
+    return z
+
+
+e_pcoord_node = e_simple("particle_coord_node", "ParticleCoordinates_t")
+e_psol = e_simple("particle_sol", "ParticleSolution_t")
+e_piter = e_named("piter", "ParticleIterativeData_t")
+
+
+def e_pcoord(g, par, p):
+    """cg_particle_coord_write: par is the particle zone; ParticleCoordinates is created while there is no such node"""
+    pcs = [k for k in par.kids if k.kind == "ParticleCoordinates_t"]
+    pc = [k for k in pcs if k.name == b"ParticleCoordinates"]
+    if pcs and not pc:
+        return None
+    n = par.ctx["np"]
+    if n < 1:
+        return None
+    pc = pc[0] if pc else Node("ParticleCoordinates_t", b"ParticleCoordinates", "none", par)
+    if any(k.name == p.kw["name"] for k in pc.kids):
+        return None
+    dt = p.kw["dt"]
+    data = rand_elems(g.rng, dt, n)
+    ci = g.call("particle_coord", par, p.kw["name"], arrs=[(dt, [n], data)], plan=p, slab=slab_spec(g.rng, [n], [1]))
+    a = Node("DataArray_t", p.kw["name"], p_arr(dt, [n], data), pc)
+    g.expect_index(ci, a)
+    return a
+
+
+def e_psol_ptset(g, par, p):
+    rng, n = g.rng, par.ctx["np"]
+    if n < 1:
+        return None
+    if rng.random() < 0.5:
+        lo = rng.randint(1, n); hi = rng.randint(lo, n)
+        ptype, npnts, pts, patch = 4, 2, [lo, hi], hi - lo + 1
+    else:
+        npnts = rng.randint(1, min(6, n)); pts = [rng.randint(1, n) for _ in range(npnts)]
+        ptype, patch = 2, npnts
+    ci = g.call("particle_sol_ptset", par, p.kw["name"], [ptype, npnts] + pts, plan=p)
+    s_ = Node("ParticleSolution_t", p.kw["name"], "none", par)
+    s_.patch = patch
+    ptset_node(s_, ptype, 1, npnts, pts)
+    g.expect_index(ci, s_)
+    return s_
+
+
+def e_pfield(g, par, p):
+    n = getattr(par, "patch", None) or par.ctx["np"]
+    if n < 1:
+        return None
+    dt = p.kw["dt"]
+    data = rand_elems(g.rng, dt, n)
+    ci = g.call("particle_field", par, p.kw["name"], arrs=[(dt, [n], data)], plan=p, slab=slab_spec(g.rng, [n], [1]))
+    a = Node("DataArray_t", p.kw["name"], p_arr(dt, [n], data), par)
+    g.expect_index(ci, a)
+    return a
+
+
+@single("ParticleEquationSet_t.ParticleEquationSet")
+def e_peqset(g, par, p):
+    dim = g.rng.choice([0, 1, 2, 3])
+    ci = g.call("particle_equationset", par, ints=[dim], plan=p)
+    n = Node("ParticleEquationSet_t.ParticleEquationSet", b"ParticleEquationSet", "none", par)
+    if dim:
+        Node("\"int\".EquationDimension", b"EquationDimension", p_ints([1], [dim]), n)
+    g.expect_index(ci, None)
+    return n
+
+
+@single("ParticleGoverningEquations_t.ParticleGoverningEquations")
+def e_pgoverning(g, par, p):
+    ty = g.rng.randint(0, 4)
+    ci = g.call("particle_governing", par, ints=[ty], plan=p)
+    n = Node("ParticleGoverningEquations_t.ParticleGoverningEquations", b"ParticleGoverningEquations", "enum:%d" % ty, par)
+    g.expect_index(ci, None)
+    return n
+
+
+def e_model_of(fn, labels, types):
+    def f(g, par, p):
+        w = p.kw["which"]
+        kind = "%s.%s" % (labels[w], labels[w][:-2])
+        if any(k.kind == kind for k in par.kids):
+            return None
+        ty = g.rng.choice([0, 1] + types[w] * 3)
+        ci = g.call(fn, par, ints=[w, ty], plan=p)
+        n = Node(kind, labels[w][:-2].encode(), "enum:%d" % ty, par)
+        g.expect_index(ci, None)
+        return n
+    return f
+
+
+e_model = e_model_of("model", MODEL_LABELS, MODEL_TYPES)
+e_pmodel = e_model_of("particle_model", PMODEL_LABELS, PMODEL_TYPES)
+
+
+@single("\"int[1+...+IndexDimension]\".DiffusionModel")
+def e_diffusion(g, par, p):
+    d = par.ctx["idim"] or par.ctx["cell"]
+    n = {1: 1, 2: 3, 3: 6}[d]
+    vals = [g.rng.choice([0, 1]) for _ in range(n)]
+    ci = g.call("diffusion", par, ints=vals, plan=p)
+    Node("\"int[1+...+IndexDimension]\".DiffusionModel", b"DiffusionModel", p_ints([n], vals), par)
+    g.expect_index(ci, None)
+
+
+def subreg_locs(ctx, dimension):
+    locs = [2, 3]
+    if dimension + 1 >= 2:
+        locs.append(8)
+    if dimension + 1 >= 3:
+        locs.append(4)
+        if ctx["zt"] == 2:
+            locs += [5, 6, 7]
+    return locs
+
+
+def e_subreg(g, par, p):
+    rng, c = g.rng, par.ctx
+    dimension = rng.randint(1, c["cell"])
+    var = p.kw["var"]
+    if var == "ptset":
+        loc = rng.choice(subreg_locs(c, dimension))
+        ptype, npnts, pts, patch = rand_ptset(g, c)
+        ci = g.call("subreg_ptset", par, p.kw["name"], [dimension, loc, ptype, npnts] + pts, plan=p)
+        n = Node("ZoneSubRegion_t", p.kw["name"], p_ints([1], [dimension]), par)
+        ptset_node(n, ptype, c["idim"], npnts, pts)
+        if loc != 2:
+            Node("GridLocation_t.GridLocation", b"GridLocation", "enum:%d" % loc, n)
+    else:
+        txt = text(rng, 1, 32).replace(b";", b":")
+        ci = g.call("subreg_bcname" if var == "bc" else "subreg_gcname", par, p.kw["name"], [dimension], [txt], plan=p)
+        n = Node("ZoneSubRegion_t", p.kw["name"], p_ints([1], [dimension]), par)
+        Node("Descriptor_t", b"BCRegionName" if var == "bc" else b"GridConnectivityRegionName", "str:" + hx(txt), n)
+    g.expect_index(ci, n)
+    return n
+
+
+def bprop(par):
+    b = [k for k in par.kids if k.kind == "BCProperty_t.BCProperty"]
+    return b[0] if b else Node("BCProperty_t.BCProperty", b"BCProperty", "none", par)
+
+
+def cprop(par):
+    b = [k for k in par.kids if k.kind == "GridConnectivityProperty_t.GridConnectivityProperty"]
+    return b[0] if b else Node("GridConnectivityProperty_t.GridConnectivityProperty", b"GridConnectivityProperty", "none", par)
+
+
+def e_wallfunction(g, par, p):
+    if any(k.kind == "WallFunction_t.WallFunction" for b in par.kids if b.kind == "BCProperty_t.BCProperty" for k in b.kids):
+        return None
+    ty = g.rng.randint(0, 2)
+    ci = g.call("bc_wallfunction", par, ints=[ty], plan=p)
+    n = Node("WallFunction_t.WallFunction", b"WallFunction", "none", bprop(par))
+    Node("WallFunctionType_t.WallFunctionType", b"WallFunctionType", "enum:%d" % ty, n)
+    g.expect_index(ci, None)
+    return n
+
+
+def e_area(g, par, p):
+    if any(k.kind == "Area_t.Area" for b in par.kids if b.kind == "BCProperty_t.BCProperty" for k in b.kids):
+        return None
+    rng = g.rng
+    ty = rng.randint(0, 3)
+    sa = rand_elems(rng, "R4", 1)
+    region = (b"R" + text(rng, 0, 31).replace(b";", b":")).rstrip() if rng.random() < 0.8 else b"R" * 32
+    region = bytes(ch for ch in region if 32 <= ch < 127)[:32] or b"R"
+    ci = g.call("bc_area", par, ints=[ty], strs=[region], arrs=[("R4", [1], sa)], plan=p)
+    n = Node("Area_t.Area", b"Area", "none", bprop(par))
+    Node("AreaType_t.AreaType", b"AreaType", "enum:%d" % ty, n)
+    Node("DataArray_t", b"SurfaceArea", p_arr("R4", [1], sa), n)
+    Node("DataArray_t", b"RegionName", p_arr("C1", [32], region.ljust(32)), n)
+    g.expect_index(ci, None)
+    return n
+
+
+def e_periodic(g, par, p):
+    if any(k.kind == "Periodic_t.Periodic" for b in par.kids if b.kind.startswith("GridConnectivityProperty_t") for k in b.kids):
+        return None
+    ph = par.ctx["phys"]
+    vs = [rand_elems(g.rng, "R4", ph) for _ in range(3)]
+    ci = g.call("periodic", par, arrs=[("R4", [ph], v) for v in vs], plan=p)
+    n = Node("Periodic_t.Periodic", b"Periodic", "none", cprop(par))
+    for nm, v in zip((b"RotationCenter", b"RotationAngle", b"Translation"), vs):
+        Node("DataArray_t", nm, p_arr("R4", [ph], v), n)
+    g.expect_index(ci, None)
+    return n
+
+
+def e_average(g, par, p):
+    if any(k.kind == "AverageInterface_t.AverageInterface" for b in par.kids if b.kind.startswith("GridConnectivityProperty_t") for k in b.kids):
+        return None
+    ty = g.rng.randint(0, 7)
+    ci = g.call("average", par, ints=[ty], plan=p)
+    n = Node("AverageInterface_t.AverageInterface", b"AverageInterface", "none", cprop(par))
+    Node("AverageInterfaceType_t.AverageInterfaceType", b"AverageInterfaceType", "enum:%d" % ty, n)
+    g.expect_index(ci, None)
+    return n
+
+
+def e_bcdataset(g, par, p):
+    bct, ty = g.rng.randint(0, 25), p.kw["ty"]
+    ci = g.call("bcdataset", par, p.kw["name"], [bct, ty], plan=p)
+    n = Node("FamilyBCDataSet_t", p.kw["name"], "enum:%d" % bct, par)
+    n.patch = 1
+    b = Node("BCData_t.DirichletData" if ty == 2 else "BCData_t.NeumannData", b"DirichletData" if ty == 2 else b"NeumannData", "none", n)
+    b.patch = 1
+    g.expect_index(ci, None)
+    return n
+
+
+def e_node_family(g, par, p):
+    ci = g.call("node_family", par, p.kw["name"], plan=p)
+    n = Node("Family_t", p.kw["name"], "none", par)
+    g.expect_index(ci, n)
+    return n
+
+
+def ptset_locs(c):
+    locs = [2, 3]
+    if c["cell"] >= 2:
+        locs.append(8)
+    if c["cell"] >= 3:
+        locs.append(4)
+        if c["zt"] == 2:
+            locs += [5, 6, 7]
+    return locs
+
+
+def e_ptset_container(fn, kind):
+    """cg_sol_ptset_write / cg_discrete_ptset_write: the node, its point set, the location (if not Vertex)"""
+    def f(g, par, p):
+        c = par.ctx
+        loc = g.rng.choice(p.kw.get("locs") or ptset_locs(c))
+        ptype, npnts, pts, patch = rand_ptset(g, c)
+        ci = g.call(fn, par, p.kw["name"], [loc, ptype, npnts] + pts, plan=p)
+        n = Node(kind, p.kw["name"], "none", par)
+        n.patch, n.loc = patch, loc
+        ptset_node(n, ptype, c["idim"], npnts, pts)
+        if loc != 2:
+            Node("GridLocation_t.GridLocation", b"GridLocation", "enum:%d" % loc, n)
+        g.expect_index(ci, n)
+        return n
+    return f
+
+
+e_sol_ptset = e_ptset_container("sol_ptset", "FlowSolution_t")
+e_discrete_ptset = e_ptset_container("discrete_ptset", "DiscreteData_t")
 
 
 # ----------------------------------------------------------------------------------------------- building a plan
@@ -1005,7 +1278,17 @@ CTX = {      # node-context children that may be attached under a kind (what har
     "BaseIterativeData_t": "d c u U a", "ZoneIterativeData_t": "d c u U a", "Gravity_t.Gravity": "d c u U",
     "Axisymmetry_t.Axisymmetry": "d c u U", "RotatingCoordinates_t.RotatingCoordinates": "d c u U",
     "FlowEquationSet_t.FlowEquationSet": "d c u U", "GoverningEquations_t.GoverningEquations": "d U",
+    "ParticleZone_t": "d c u U f", "ParticleCoordinates_t": "d c u U", "ParticleSolution_t": "d c u U",
+    "ParticleIterativeData_t": "d c u U a", "ParticleEquationSet_t.ParticleEquationSet": "d c u U",
+    "ParticleGoverningEquations_t.ParticleGoverningEquations": "d U", "ZoneSubRegion_t": "d c u U f m a",
+    "BCProperty_t.BCProperty": "d U", "WallFunction_t.WallFunction": "d U", "Area_t.Area": "d U",
+    "GridConnectivityProperty_t.GridConnectivityProperty": "d U", "Periodic_t.Periodic": "d c u U",
+    "AverageInterface_t.AverageInterface": "d U", "FamilyBCDataSet_t": "d c u U",
 }
+for _l in MODEL_LABELS + PMODEL_LABELS:
+    CTX["%s.%s" % (_l, _l[:-2])] = "d c u U 1"
+for _k in ("Zone_t", "BC_t", "UserDefinedData_t"):
+    CTX[_k] += " m"
 
 
 class Planner:
@@ -1035,6 +1318,14 @@ class Planner:
                 out.append(Plan("famname", e_famname))
             elif code == "l":
                 out.append(Plan("gridlocation", e_gridlocation))
+            elif code == "m":
+                for _ in range(rng.choice([1, 1, 2])):
+                    out.append(Plan("multifam", e_multifam, name=self.nm("AF"), fam=text(rng, 1, 40).replace(b";", b":")))
+            elif code == "1":                      # arrays of one element (model nodes)
+                for _ in range(rng.choice([1, 2])):
+                    a = Plan("array", e_array, name=self.nm("A"), dims=[1])
+                    a.kids = self.ctx_plans("DataArray_t", depth + 1, 0.25)
+                    out.append(a)
             elif code == "v":
                 out.append(Plan("conversion", e_conversion))
             elif code == "x":
@@ -1100,6 +1391,10 @@ class Planner:
                 zi.kids += self.ctx_plans("ZoneIterativeData_t")
                 zp.kids.append(zi)
         b.kids += self.common_t2("CGNSBase_t")
+        for _ in range(rng.choice([0, 1, 1, 2])):
+            b.kids.append(self.pzone(has_biter))
+        if rng.random() < 0.3:
+            b.kids.append(self.peqset())
         if rng.random() < 0.4:
             b.kids.append(Plan("simulation_type", e_simtype))
         if rng.random() < 0.4:
@@ -1113,7 +1408,19 @@ class Planner:
         for _ in range(rng.choice([0, 1, 2])):
             f = Plan("family", e_simple("family", "Family_t"), name=self.nm("Fam"))
             for _ in range(rng.choice([0, 1, 2])):
-                f.kids.append(Plan("fambc", e_fambc, name=self.nm("FBC")))
+                fb = Plan("fambc", e_fambc, name=self.nm("FBC"))
+                for _ in range(rng.choice([0, 1, 2])):
+                    ds = Plan("bcdataset", e_bcdataset, name=self.nm("FDS"), ty=rng.choice([2, 3]))
+                    ds.kids += self.ctx_plans("FamilyBCDataSet_t")
+                    fb.kids.append(ds)
+                f.kids.append(fb)
+            par_f = f
+            for _ in range(rng.choice([0, 0, 1, 2])):             # nested families (family tree)
+                nf = Plan("node_family", e_node_family, name=self.nm("SubFam"))
+                nf.kids += self.ctx_plans("Family_t")
+                par_f.kids.append(nf)
+                if rng.random() < 0.5:
+                    par_f = nf
             for _ in range(rng.choice([0, 1])):
                 ge = Plan("geo", e_geo, name=self.nm("Geo"))
                 for _ in range(rng.choice([0, 1, 2])):
@@ -1147,7 +1454,15 @@ class Planner:
             if rng.random() < 0.7:
                 gv = Plan("governing", e_governing)
                 gv.kids += self.ctx_plans("GoverningEquations_t.GoverningEquations")
+                if rng.random() < 0.5:
+                    gv.kids.append(Plan("diffusion", e_diffusion))
                 eq.kids.append(gv)
+            for w in rng.sample(range(10), rng.choice([0, 1, 2, 4, 10])):
+                m = Plan("model", e_model, which=w)
+                m.kids += self.ctx_plans("%s.%s" % (MODEL_LABELS[w], MODEL_LABELS[w][:-2]), 1, 0.3)
+                if w == 4 and rng.random() < 0.6:
+                    m.kids.append(Plan("diffusion", e_diffusion))
+                eq.kids.append(m)
             eq.kids += self.ctx_plans("FlowEquationSet_t.FlowEquationSet")
             out.append(eq)
         if rng.random() < 0.3:
@@ -1156,9 +1471,107 @@ class Planner:
             out.append(ro)
         return out
 
+    def cprops(self):
+        rng, out = self.rng, []
+        if rng.random() < 0.35:
+            pe = Plan("periodic", e_periodic)
+            pe.kids += self.ctx_plans("Periodic_t.Periodic")
+            out.append(pe)
+        if rng.random() < 0.35:
+            av = Plan("average", e_average)
+            av.kids += self.ctx_plans("AverageInterface_t.AverageInterface")
+            out.append(av)
+        return out
+
+    def peqset(self):
+        rng = self.rng
+        eq = Plan("particle_equationset", e_peqset)
+        if rng.random() < 0.7:
+            gv = Plan("particle_governing", e_pgoverning)
+            gv.kids += self.ctx_plans("ParticleGoverningEquations_t.ParticleGoverningEquations")
+            eq.kids.append(gv)
+        for w in rng.sample(range(5), rng.choice([0, 1, 2, 5])):
+            m = Plan("particle_model", e_pmodel, which=w)
+            m.kids += self.ctx_plans("%s.%s" % (PMODEL_LABELS[w], PMODEL_LABELS[w][:-2]), 1, 0.3)
+            eq.kids.append(m)
+        eq.kids += self.ctx_plans("ParticleEquationSet_t.ParticleEquationSet")
+        return eq
+
+    def pzone(self, has_biter):
+        """a particle zone: coordinates (default node on demand or explicit, further nodes), solutions (whole / point set)
+        and fields, equation set, integral data, reference state, iterative data"""
+        rng = self.rng
+        n = rng.choice([0, rng.randint(1, 6), rng.randint(1, 6), rng.randint(300, 900)])
+        z = Plan("particle", e_particle, name=self.nm("PZ"), n=n)
+        z.kids += self.ctx_plans("ParticleZone_t")
+        coords = [Plan("particle_coord", e_pcoord, name=cn, dt=rng.choice(["R4", "R8"]))
+                  for cn in rng.sample([b"CoordinateX", b"CoordinateY", b"CoordinateZ", self.nm("PC")], rng.randint(0, 3))]
+        for c in coords:
+            c.kids += self.ctx_plans("DataArray_t", 1, 0.25)
+        first = None
+        if rng.random() < 0.5:
+            first = Plan("particle_coord_node", e_pcoord_node, name=b"ParticleCoordinates")
+            first.kids += [c_after(c) for c in coords] + self.ctx_plans("ParticleCoordinates_t")
+            z.kids.append(first)
+        else:
+            z.kids += coords
+            first = coords[0] if coords and n else None
+        if rng.random() < 0.4:
+            pc = Plan("particle_coord_node", e_pcoord_node, name=self.nm("PCN"))
+            if n:
+                for _ in range(rng.choice([0, 1, 2])):
+                    pc.kids.append(Plan("array", e_array, name=self.nm("PA"), dt=rng.choice(["R4", "R8"]), dims=[n]))
+            pc.kids += self.ctx_plans("ParticleCoordinates_t")
+            (first.kids if first is not None else z.kids).append(c_after(pc) if first is not None else pc)
+        for _ in range(rng.choice([0, 1, 2, 3])):
+            ps = Plan("particle_sol_ptset", e_psol_ptset, name=self.nm("PS")) if rng.random() < 0.4 else \
+                Plan("particle_sol", e_psol, name=self.nm("PS"))
+            for _ in range(rng.choice([0, 1, 2, 3])):
+                f = Plan("particle_field", e_pfield, name=self.nm("PF"), dt=rng.choice(["R4", "R8", "R8", "I4", "I8", "X4", "X8"]))
+                f.kids += self.ctx_plans("DataArray_t", 1, 0.25)
+                ps.kids.append(f)
+            ps.kids += self.ctx_plans("ParticleSolution_t")
+            z.kids.append(ps)
+        if rng.random() < 0.5:
+            z.kids.append(self.peqset())
+        for _ in range(rng.choice([0, 0, 1])):
+            it = Plan("integral", e_integral, name=self.nm("Int"))
+            it.kids += self.ctx_plans("IntegralData_t", 0, 0.5)
+            z.kids.append(it)
+        if rng.random() < 0.3:
+            st = Plan("state", e_state)
+            st.kids += self.ctx_plans("ReferenceState_t.ReferenceState")
+            z.kids.append(st)
+        if has_biter and rng.random() < 0.6:        # like ZoneIterativeData_t: only read when the base has BaseIterativeData_t
+            pi = Plan("piter", e_piter, name=self.nm("PIter"))
+            pi.kids += self.ctx_plans("ParticleIterativeData_t")
+            z.kids.append(pi)
+        return z
+
     def zone(self, z, zt, cell, zones):
         rng = self.rng
         z.kids += self.ctx_plans("Zone_t")
+        # zone sub-regions (point set / BC name / connectivity name)
+        for _ in range(rng.choice([0, 0, 1, 2])):
+            sr = Plan("subreg", e_subreg, name=self.nm("Reg"), var=rng.choice(["ptset", "ptset", "bc", "gc"]))
+            if rng.random() < 0.3:
+                sr.pre.append(Plan("rind", e_rind))
+            sr.kids += self.ctx_plans("ZoneSubRegion_t")
+            z.kids.append(sr)
+        # point-set solutions and discrete data
+        for _ in range(rng.choice([0, 0, 1])):
+            s_ = Plan("sol_ptset", e_sol_ptset, name=self.nm("SolP"))
+            for _ in range(rng.choice([0, 1, 2])):
+                f = Plan("field", e_field, name=self.nm("Fld"), dt=rng.choice(["R4", "R8", "I4", "I8", "X4", "X8"]))
+                s_.kids.append(f)
+            s_.kids += self.ctx_plans("FlowSolution_t")
+            z.kids.append(s_)
+        for _ in range(rng.choice([0, 0, 1])):
+            d_ = Plan("discrete_ptset", e_discrete_ptset, name=self.nm("DiscP"))
+            for _ in range(rng.choice([0, 1, 2])):
+                d_.kids.append(Plan("array", e_array, name=self.nm("DA"), dt=rng.choice(["R4", "R8", "I4", "I8"]), patch_of=True))
+            d_.kids += self.ctx_plans("DiscreteData_t")
+            z.kids.append(d_)
         z.kids += self.common_t2("Zone_t")
         for _ in range(rng.choice([0, 0, 1, 2])):
             d = Plan("discrete", e_discrete, name=self.nm("Disc"))
@@ -1249,6 +1662,14 @@ class Planner:
                 bc.kids.append(Plan("boco_gridlocation", e_boco_loc))
             if rng.random() < 0.5:
                 bc.kids.append(Plan("boco_normal", e_boco_normal))
+            if rng.random() < 0.35:
+                w_ = Plan("bc_wallfunction", e_wallfunction)
+                w_.kids += self.ctx_plans("WallFunction_t.WallFunction")
+                bc.kids.append(w_)
+            if rng.random() < 0.35:
+                a_ = Plan("bc_area", e_area)
+                a_.kids += self.ctx_plans("Area_t.Area")
+                bc.kids.append(a_)
             for _ in range(rng.choice([0, 1, 2])):
                 ds = Plan("dataset", e_dataset, name=self.nm("DS"))
                 for ty in rng.sample([2, 3], rng.randint(0, 2)):
@@ -1268,12 +1689,12 @@ class Planner:
         if zt == 2:
             for _ in range(rng.choice([0, 1, 2])):
                 o = Plan("1to1", e_1to1, name=self.nm("One"), donor=rng.choice(zones)[0] if rng.random() < 0.7 else self.nm("Donor"))
-                o.kids += self.ctx_plans("GridConnectivity1to1_t")
+                o.kids += self.ctx_plans("GridConnectivity1to1_t") + self.cprops()
                 made.append(o)
         for _ in range(rng.choice([0, 1, 2])):
             d = rng.choice(zones)
             c = Plan("conn", e_conn, name=self.nm("Conn"), donor=(d[0], d[1]))
-            c.kids += self.ctx_plans("GridConnectivity_t")
+            c.kids += self.ctx_plans("GridConnectivity_t") + self.cprops()
             made.append(c)
         for _ in range(rng.choice([0, 1])):
             h = Plan("hole", e_hole, name=self.nm("Hole"))
